@@ -486,6 +486,39 @@ def rule_b3(ctx, F):
 
 
 # ------------------------------------------------------------------------------------------------
+# P2: popped subtree arrays are deleted whole
+# ------------------------------------------------------------------------------------------------
+def rule_p2(ctx, F):
+    """ts_subtree_array_remove_trailing_extras moves the trailing extras of an array into a scratch
+    array.  When the alternative is discarded, the array that must be deleted is the slice's own
+    (full) array — deleting the shortened by-value copy orphans the references of the moved extras."""
+    n = 0
+    for fn in F.fn_list:
+        if not fn.file.startswith("lib/src"):
+            continue
+        shortened = set()
+        for pt, c in fn.calls():
+            if c.get("fn") == "ts_subtree_array_remove_trailing_extras":
+                a = strip(c["a"][0])
+                if a.get("k") == "un" and a["op"] == "&" and strip(a["e"]).get("k") == "ref":
+                    shortened.add(strip(a["e"])["name"])
+        if not shortened:
+            continue
+        for pt, c in fn.calls():
+            if c.get("fn") == "ts_subtree_array_delete":
+                n += 1
+                a = strip(c["a"][1])
+                tgt = strip(a["e"]) if a.get("k") == "un" and a["op"] == "&" else a
+                key = "%s:array_delete:%s" % (fn.name, show(tgt).replace(" ", ""))
+                if tgt.get("k") == "ref" and tgt["name"] in shortened:
+                    ctx.bad("P2", key, "%s deletes `%s`, a by-value copy already shortened by ts_subtree_array_remove_trailing_extras, at %s: the extras moved to the scratch array are never released (leak)" % (
+                        fn.name, tgt["name"], fn.loc(pt)), {"function": fn.name, "site": fn.loc(pt)})
+                else:
+                    ctx.ok("P2", key, "deletes the owning array `%s` (not a shortened copy)" % show(tgt), sample={"function": fn.name, "site": fn.loc(pt), "array": show(tgt)})
+    ctx.floor("array deletions in functions that split off trailing extras", n, 2)
+
+
+# ------------------------------------------------------------------------------------------------
 # W1: allocator discipline
 # ------------------------------------------------------------------------------------------------
 LIBC_ALLOC = {"malloc", "calloc", "realloc", "free", "strdup", "strndup", "aligned_alloc", "posix_memalign", "reallocarray"}
@@ -602,6 +635,7 @@ def run(ctx):
         rule_b1(ctx, F)
         rule_b2(ctx, F)
         rule_b3(ctx, F)
+        rule_p2(ctx, F)
         rule_w1(ctx, F)
         rule_p1(ctx, F)
     ctx.assumptions = ["an external scanner's serialize() writes at most TREE_SITTER_SERIALIZATION_BUFFER_SIZE bytes into the buffer it is given (documented contract; foreign code)",
